@@ -135,6 +135,10 @@ def mk_plan(rng, benign):
             plan["rules"].append({"id": "re", "call": "read", "pat": "*.mmm", "nth": "%3:1", "act": "eintr"})
         if rng.chance(1, 3):
             plan["rules"].append({"id": "os", "call": "write", "pat": "<stdout>", "nth": "*", "act": "short:2,5,1"})
+        if rng.chance(1, 2):
+            plan["rules"].append({"id": "es", "call": "write", "pat": "<stderr>", "nth": "*", "act": "short:" + ",".join(str(rng.choice([1, 7, 24, 40])) for _ in range(3))})
+        if rng.chance(1, 3):
+            plan["rules"].append({"id": "ee", "call": "write", "pat": "<stderr>", "nth": "%2:1", "act": "eintr"})
     return plan
 
 
